@@ -345,6 +345,11 @@ class Grammar:
         for weight in weights:
             assert weights[weight] >= 0 and weights[weight] <= 1
 
+        # every normalised production keeps its weight, including those reached only through their parents
+        for rule in self.alternatives:
+            for prod in self.alternatives[rule]:
+                get_gengy(prod)["weight"] = weights[prod]
+
         starting_symbol = self.starting_symbol
         starting_symbol.__dict__["__gengy__"]["weight"] = weights[starting_symbol]
         nodes = list()
